@@ -242,7 +242,17 @@ func splitComma(s string) []string {
 // randomRing draws a ring from several families (convex hull-ish polygons
 // with collinear and repeated vertices, stars, random walks).
 func randomRing(rng *rand.Rand) [][]int {
-	switch rng.Intn(5) {
+	switch rng.Intn(6) {
+	case 5: // few distinct vertices, each repeated 1..4 times in a row (runs of repetitions at corners)
+		n := 3 + rng.Intn(4)
+		var r [][]int
+		for i := 0; i < n; i++ {
+			p := []int{rng.Intn(5), rng.Intn(5)}
+			for k := []int{1, 1, 2, 3, 4}[rng.Intn(5)]; k > 0; k-- {
+				r = append(r, p)
+			}
+		}
+		return r
 	case 0: // random points
 		n := 3 + rng.Intn(8)
 		r := make([][]int, n)
